@@ -345,6 +345,9 @@ func (m *IntegerPreAgg) addValues(col *record.ColVal, times []int64) {
 	values := col.IntegerValues()
 	valLen := len(values)
 	agg := m.values
+	// min and max still hold their start values (min > max is impossible once a value has been recorded): the first
+	// value becomes both, also when it equals a start value, so that its time is recorded
+	fresh := agg[minIndex] == math.MaxInt64 && agg[maxIndex] == math.MinInt64
 	for i, j := 0, 0; i < col.Len; i++ {
 		if col.NilCount > 0 && col.IsNil(i) {
 			continue
@@ -352,6 +355,11 @@ func (m *IntegerPreAgg) addValues(col *record.ColVal, times []int64) {
 
 		v := values[j]
 		j++
+		if fresh {
+			agg[minIndex], agg[minTIndex] = v, times[i]
+			agg[maxIndex], agg[maxTIndex] = v, times[i]
+			fresh = false
+		}
 		if agg[minIndex] > v {
 			agg[minIndex] = v
 			agg[minTIndex] = times[i]
@@ -559,6 +567,9 @@ func (m *FloatPreAgg) sum() interface{} {
 func (m *FloatPreAgg) addValues(col *record.ColVal, times []int64) {
 	values := col.FloatValues()
 	valLen := len(values)
+	// min and max still hold their start values (min > max is impossible once a value has been recorded): the first
+	// value that is not NaN becomes both, also when it is an infinity or equals a start value
+	fresh := m.minV == math.MaxFloat64 && m.maxV == -math.MaxFloat64
 	for i, j := 0, 0; i < col.Len; i++ {
 		if col.NilCount > 0 && col.IsNil(i) {
 			continue
@@ -566,6 +577,11 @@ func (m *FloatPreAgg) addValues(col *record.ColVal, times []int64) {
 
 		v := values[j]
 		j++
+		if fresh && !math.IsNaN(v) {
+			m.minV, m.minTime = v, times[i]
+			m.maxV, m.maxTime = v, times[i]
+			fresh = false
+		}
 		if m.minV > v {
 			m.minV = v
 			m.minTime = times[i]
